@@ -140,15 +140,21 @@ structure Cfg where
   py3str_as_py2str : Bool
   /-- a channel factory is available (`loads_internal` inside a gateway) -/
   hasFactory : Bool
+  /-- finite memory: a NEWLIST count above this limit ends in MemoryError (`none` = unbounded).
+  The real loader trusts the count (known finding D6); the limit lets the model say so without
+  building the list. -/
+  memLimit : Option Nat := none
 
 /-- `loads`/`load` defaults -/
-def cfgPublic : Cfg := ⟨false, false, false⟩
+def cfgPublic : Cfg := ⟨false, false, false, none⟩
 
 inductive LoadErr where
   /-- EOFError: the input ended early -/
   | eof
   /-- DataFormatError (LoadError) -/
   | dataFormat
+  /-- MemoryError: a length field demanded more memory than is available (known finding D6) -/
+  | memory
   deriving DecidableEq, Repr
 
 inductive Res where
@@ -211,6 +217,12 @@ def setItem (rest : Bytes) (st : List PyVal) : Res :=
     | _ => .err .dataFormat
   | _ => .err .dataFormat
 
+/-- does a list of `n` entries exceed the available memory? -/
+def memExceeded (cfg : Cfg) (n : Nat) : Bool :=
+  match cfg.memLimit with
+  | some m => decide (n > m)
+  | Option.none => false
+
 /-- one opcode of `Unserializer.load` -/
 def step (cfg : Cfg) (op : UInt8) (rest : Bytes) (st : List PyVal) : Res :=
   match op.toNat with
@@ -249,7 +261,8 @@ def step (cfg : Cfg) (op : UInt8) (rest : Bytes) (st : List PyVal) : Res :=
       match utf8Decode b with
       | some s => .cont r (.str s :: st)
       | Option.none => .err .dataFormat
-  | 75 => rdI32 rest fun n r => .cont r (.list (List.replicate n.toNat .none) :: st)
+  | 75 => rdI32 rest fun n r =>
+      if memExceeded cfg n.toNat then .err .memory else .cont r (.list (List.replicate n.toNat .none) :: st)
   | 74 => .cont rest (.dict [] :: st)
   | 80 => setItem rest st
   | 64 => rdI32 rest fun n r => buildColl .tuple n r st
